@@ -38,12 +38,13 @@ def R(classes, rid, doc, violating=(), boundary=(), strict=False, admissible=(),
                              base=dict(base or {})))
 
 
-def D(classes, did, doc, t=None, pts=None, base=None, outside="all", level="outside"):
+def D(classes, did, doc, t=None, pts=None, base=None, outside="all", level="outside", int_pts=False):
     """pts: list of points (contract layout) or None for the table's default points; t None = the table's valid time.
     outside: 'all' (every record is outside the domain) or a list of record indices that are."""
     if isinstance(classes, str):
         classes = [classes]
-    DOMAINS.append(dict(classes=list(classes), did=did, doc=doc, t=t, pts=pts, base=dict(base or {}), outside=outside, level=level))
+    DOMAINS.append(dict(classes=list(classes), did=did, doc=doc, t=t, pts=pts, base=dict(base or {}), outside=outside, level=level,
+                        int_pts=bool(int_pts)))
 
 
 # =============================================================================================== Coggeshall
@@ -83,6 +84,11 @@ for _cl in (_TAU6, _TAU18, _TAU7):
 D(family("cog.cog20", "Cog20"), "t<1/a", "module docstring: every field carries a negative power of (1 - a t): singular at t = 1/a",
   t=4.0, base={"a": 0.25}, level="boundary")
 D(family("cog.cog20", "Cog20"), "t<1/a", "as above (beyond the singular time the density formula is negative for k+1 odd)", t=5.0, base={"a": 0.25})
+# a < 0: the condition is 1 - a t > 0, i.e. t > 1/a; times before 1/a (negative) lie beyond the singularity (seeded change S4-C20-3: a guard
+# written as t >= 1/a is right only for a > 0)
+D(family("cog.cog20", "Cog20"), "1-at>0 (a<0)", "module docstring: (1 - a t) must stay positive; constructor forbids only a = 0", t=-2.0, base={"a": -0.5}, level="boundary")
+D(family("cog.cog20", "Cog20"), "1-at>0 (a<0)", "as above", t=-3.0, base={"a": -0.5})
+D(family("cog.cog20", "Cog20"), "1-at>0 (a<0)", "as above", t=-10.0, base={"a": -0.5})
 
 # =============================================================================================== Noh family
 R(["noh.noh1.Noh"], "u0<0", "help string 'incident velocity (negative)'; constructor message 'Incident velocity must be negative'",
@@ -107,6 +113,10 @@ R(["sedov.sedov.Sedov"], "0<=omega<geometry", "sedov.py comment 'Omega must be b
   admissible=[{"omega": 0.0}])
 D(_SED, "t>0", "sedov.py comment 'There is no valid solution a t = 0' and the NaN branch", t=0.0, level="boundary")
 D(_SED, "t>0", "as above", t=-1.0)
+# the same two requests with integer-typed positions: a NaN written into an array that took the request's dtype is a finite integer
+# (seeded change S4-C20-2)
+D(_SED, "t>0 (integer-typed positions)", "as above", t=0.0, pts=[1, 2, 3], level="boundary", int_pts=True)
+D(_SED, "t>0 (integer-typed positions)", "as above", t=-1.0, pts=[1, 2, 3], int_pts=True)
 
 # =============================================================================================== EHEP / SDRZ / Mader
 _E = "ehep.ehep.EscapeOfHEProducts"
